@@ -861,6 +861,8 @@ def run(run):
     segsearch(run, fx)
     pseudostore(run, fx)
     pseudosib_exec(run, fx)
+    from . import validators as validators_
+    validators_.check(run, fx, 'SELECTORS')          # the cmap gates and the pseudo-glyph map are checked at load (shared with C01)
     inst_ = 'format 4 lookup computes the glyph the table gives (interpreted on concrete small tables)'
     f4_ = fx.one('graphite2::TtfUtil::CmapSubtable4Lookup')
     try:
